@@ -181,6 +181,12 @@ def main(argv=None):
     else:
         ctx = mp.get_context("fork")
         chunk = max(1, min(64, len(items) // (jobs * 8) or 1))
+        if getattr(mod, "HEAVY_CASES", False):
+            # cases of very different cost: hand them out one by one, most expensive kinds first (mod.COST hint)
+            chunk = 1
+            cost = getattr(mod, "COST", None)
+            if cost is not None:
+                items = sorted(items, key=lambda it: -cost(it[1]))
         with ctx.Pool(jobs, initializer=_init_worker, initargs=(CHECK_MODULES[cid], seed)) as pool:
             for i, r in pool.imap_unordered(_work, items, chunksize=chunk):
                 results[i] = r
